@@ -5,7 +5,7 @@ meta.json: {"property": "C15", "expect": "violation" | "silent", "obligation": "
 import json, os, subprocess, sys, tempfile, shutil, glob
 ENV = dict(os.environ, GOFLAGS="-mod=mod", GOPROXY="off", GOSUMDB="off", GOTOOLCHAIN="local")
 root = "/verif/selftest/mutants"
-only = sys.argv[1:]
+only = [a for a in sys.argv[1:] if not a.startswith("--")]
 fails = 0
 for d in sorted(glob.glob(root + "/*/") + glob.glob("/verif/seeded/*/")):
     name = os.path.basename(d.rstrip("/"))
@@ -22,6 +22,12 @@ for d in sorted(glob.glob(root + "/*/") + glob.glob("/verif/seeded/*/")):
             print(f"{name}: PATCH DOES NOT APPLY: {r.stderr.strip()}")
             fails += 1
             continue
+        if os.path.exists(d + "emitted.diff") and "--template-only" not in sys.argv:
+            r = subprocess.run(["git", "-C", wt, "apply", d + "emitted.diff"], capture_output=True, text=True)
+            if r.returncode != 0:
+                print(f"{name}: EMITTED DIFF DOES NOT APPLY: {r.stderr.strip()}")
+                fails += 1
+                continue
         for prop in props:
             r = subprocess.run(["/verif/bin/govc", "check", prop, "--repo", wt, "--noevidence"], capture_output=True, text=True, env=ENV)
             vio = [l for l in r.stdout.splitlines() if l.startswith("VIOLATION")]
